@@ -1,10 +1,26 @@
 import RscelModel.Driver.Wire
+import RscelModel.Model.Conv
+import RscelModel.Model.WF
 open Rscel
 
 def handle (line : String) : String :=
   match (line.trimAscii.toString.splitOn " ").filter (· ≠ "") with
   | [] => "bad-request"
   | cmd :: args =>
+    if cmd == "vm" then
+      match (do
+        let (env, rest) ← Wire.parseEnv args
+        let (v, _) ← Wire.parseVal rest
+        match v with
+        | .code c => pure (Wire.showOut (execProg (stdBuiltins 0) env c))
+        | _ => none) with
+      | some r => r
+      | none => "bad-request"
+    else if cmd == "wf" then
+      match Wire.parseVal args with
+      | some (.code c, _) => wfDiag c
+      | _ => "bad-request"
+    else
     match Wire.handleValOp cmd args with
     | some r => r
     | none => "bad-request"
